@@ -40,6 +40,12 @@
   * `C14_S2_no_machines_no_actions`, `C14_S2_init_quiet`, `C14_S2_trigger_update_inert`: with no
     machines the framework returns no actions and draws no randomness, so `trigger_update` never
     sets a slot, a timer or blocking and never queues a TimerBegin.
+  * `C14_monitor_accepts_model`: **the monitor accepts the model's own observation** — under the
+    hypotheses of `C14_identity_total` on the trace, the fractions, the stop setting and the
+    model's budget, and for EVERY setting of the two caps (a binding cap makes the monitor skip
+    the run; it never makes the model panic), `C14.monitor` returns `none` on the model's
+    observation of a `sim` or `sim_advanced` run; `C14_monitor_hypotheses_needed` gives, for each
+    hypothesis on the inputs, a model observation the monitor rejects without it.
 -/
 import MbVerif.Proofs.SimNoMachines
 import MbVerif.Proofs.SimWindow
